@@ -21,7 +21,7 @@ def families(tier):
     yield "odd characters (NUL, lone CR, VT, FF, NEL, LS, PS, LRM, ZWSP, DEL, NBSP, combining) at 7 places", spaces.odd_characters()
     yield "C13 structured ref states (default layout)", spaces.c13_default_layout(tier)
     yield "C14 directive placements", spaces.c14_short()
-    yield "multi-insertion family (n x width x preceding character)", spaces.multi_insertion(big_counts=(1000, 5000) if tier == "thorough" else ())
+    yield "multi-insertion family (n x width x preceding character)", spaces.multi_insertion(big_counts=(1000, 2000) if tier == "thorough" else ())
     yield "real corpora + single-token-edit neighbourhoods", spaces.corpus_files(True, None if tier == "thorough" else 120_000)
 
 
